@@ -201,9 +201,15 @@ func genC13(ctx *Ctx) {
 			}
 		}
 	}
-	for i := 0; i < ctx.N*3; i++ {
+	for i := 0; i < ctx.N*3+8; i++ {
 		kind := ctx.Rnd.Intn(2)
 		ls := c13Lexemes(ctx, kind)
+		scale := i >= ctx.N*3 // the last eight: sequences of hundreds of lexemes, checked by the direct oracle only
+		if scale {
+			for len(ls) < 150*(1+i%4) {
+				ls = append(ls, c13Lexemes(ctx, kind)...)
+			}
+		}
 		var text strings.Builder
 		var want sx.List
 		var prev *lexeme
@@ -236,6 +242,10 @@ func genC13(ctx *Ctx) {
 			prev = &ls[j]
 		}
 		in := sx.L(sx.N(kind), sx.I(0), sx.S(text.String()), defaultCsvCfg, want)
+		if scale {
+			ctx.OracleOnly(in, fmt.Sprintf("scale: a sequence of %d lexemes", len(want)))
+			continue
+		}
 		ctx.Input(in, len(classes) >= 3)
 	}
 }
